@@ -264,13 +264,14 @@ def _record_and_validate(arg):
             tam = json.loads(json.dumps(r))
             tam['id'] = 'TAMPER'
             tam['obs']['flow']['spending'] += 1
+            tam_of = r['id']
             break
     send = [{k: v for k, v in r.items() if k != '_concrete'} for r in recs]
     if tam:
         send.append({k: v for k, v in tam.items() if k != '_concrete'})
     sh = _Shim()
     rej = run_trace_spec(sh, 'Trace_Totals', send)
-    tamper_ok = (tam is None) or ('TAMPER' in rej)
+    tamper_ok = (tam is None) or ('TAMPER' in rej) or (tam_of in rej)
     rej.pop('TAMPER', None)
     byid = {r['id']: r for r in recs}
     rejected = [(rid, sorted(cl), byid[rid]['_concrete']) for rid, cl in rej.items()]
